@@ -41,6 +41,13 @@ def run(tier, work):
         states += r.distinct
         trans += r.generated
         mcs.append({"cfg": "TinyLfuMC_cap%d.cfg" % c, "states": r.distinct, "transitions": r.generated, "wall_s": round(r.wall, 1)})
+    # capacity arithmetic of the climber for unbounded integers: inductive invariant with Apalache
+    ind = []
+    for (init, inv, length) in (("Init", "IndInv", 0), ("IndInit", "IndInv", 1), ("IndInit", "CapsOK", 0)):
+        o = vlib.run_apalache(work, "TinyLfuCaps", init, inv, length, cinit="CInit")
+        ind.append({"init": init, "inv": inv, "length": length, "outcome": o})
+        if o != "NoError":
+            raise vlib.MachineryError("TinyLfuCaps.tla: %s => %s (length %d) is not valid: %s" % (init, inv, length, o))
     out = storelib.run_driver(work, "TestVerif_C07Tlfu", "tlfu", env={"VERIF_N": 60 if thorough else 8})
     tot, files = validate_all(work, out, range(1, 9))
     seen = set()
@@ -56,13 +63,16 @@ def run(tier, work):
            "evaluations": tot["ops"], "distinct_nontrivial": tot["ops"],
            "rule": "one evaluation = one white-box step (insert/access/cost update/remove/climb+resize) of the real TinyLfu with arbitrary sketch contents and sample counters, capacities 1..8, 3..6 entries; each logged state is checked against the C07 invariants and each transition against TinyLfu.tla (exists admit outcomes)",
            "policy_steps_validated": tot["ops"], "steps_not_explained_by_the_spec": tot["div"], "model_checking_runs": mcs,
-           "samples": sample, "exhaustive": True}
+           "samples": sample, "exhaustive": True,
+           "apalache_inductive_invariant": {"spec": "TinyLfuCaps.tla", "obligations": ind,
+                                            "meaning": "for every total capacity and every step amount: window capacity >= 1, protected capacity >= 0, sum conserved, also between the two halves of resizeWindow"}}
     rc = v.finish()
     if tot["div"]:
         print("note: %d step(s) of the real policy are not a transition of TinyLfu.tla for any admit outcomes (model divergence)" % tot["div"])
     vlib.write_evidence("C07", tier, "model_checking", cov,
                         ["TLC exhaustive for capacities 1..4 (5 thorough), 3-4 entries, all operation sequences up to the configured length, every admit outcome and climber amount",
                          "the sketch is abstracted to arbitrary admit decisions, the climber's float arithmetic to an arbitrary integer amount clamped as climb() does",
+                         "TinyLfuCaps.tla (Apalache, unbounded integers) covers only the capacity arithmetic; its clamp is the one of TinyLfu.tla, whose transitions are compared step by step with the real policy",
                          "white-box driver calls the policy as sinkWrite does (policyWeight updated before Set/UpdateCost)"],
                         time.time() - t0, len(v.violations))
     return rc
